@@ -113,7 +113,9 @@ pub fn run(ctx: &Ctx) -> i32 {
         // that item with the item's kind, i.e. the file really is registered under package.Name
         for (k, f) in pr.files.iter().enumerate() {
             let q = f.doc.key();
-            pairs.push((format!("zz_probe{k}"), format!("package zz.probe; import {q}; parcelable Probe{k} {{ {q} f; }}")));
+            let simple = q.rsplit('.').next().unwrap_or("X");
+            // the second field goes through the simple name while a forward declaration of that name exists too: the import wins
+            pairs.push((format!("zz_probe{k}"), format!("package zz.probe; import {q}; parcelable {simple}; parcelable Probe{k} {{ {q} f; {simple} g; }}")));
         }
         // ... and one probe per item that imports EVERY item of the project and refers to this one by its full
         // name: the reference must resolve to an import that designates it (equal to it, or ending in '.'+name)
@@ -168,6 +170,11 @@ pub fn run(ctx: &Ctx) -> i32 {
                         st.inc("registration_probes");
                         if fl.field_type.kind != ast::TypeKind::ResolvedItem(q.clone(), want.clone()) {
                             problems.push(format!("{}: a reference to `{q}` (imported) resolves to {:?}: the file is not registered under its item's qualified name with its kind {:?}", f.id, fl.field_type.kind, want));
+                        }
+                        if let Some(ast::ParcelableElement::Field(g)) = p.elements.get(1) {
+                            if g.field_type.kind != ast::TypeKind::ResolvedItem(q.clone(), want.clone()) {
+                                problems.push(format!("{}: a reference by simple name to the imported `{q}` (a forward declaration of the same name exists) resolves to {:?}: not registered / not resolved through the import", f.id, g.field_type.kind));
+                            }
                         }
                     }
                 }
